@@ -108,6 +108,11 @@ func runC05(w *W) {
 			src = pool[k]
 		} else if r.Chance(3, 4) {
 			src = pool[r.Intn(len(pool))]
+			if r.Chance(1, 4) { // difficult leaves (strings with escapes / line breaks, quoted identifiers, big numbers)
+				if v, ok := leafSubstitute(r, src); ok {
+					src = v
+				}
+			}
 		} else {
 			g := &Gen{r: r}
 			src = g.statement(3)
